@@ -12,7 +12,7 @@ int / float / str / datetime indexes are recorded and decided the same way."""
 from __future__ import annotations
 
 from ..core import MachineryError
-from ..divisions import KINDS, Verdicts, dd, frame_of, guarded, label_of, observe_as_ranks, source_of
+from ..divisions import KINDS, Verdicts, dd, frame_of, guarded, label_of, observe_as_ranks, parallel_tlc_cases, source_of
 from ..par import pmap
 
 META = {
@@ -121,18 +121,12 @@ def bounds(ctx):
 
 def enumerate_cases(ctx, bnds, label="design+cases"):
     """One TLC run per family, run concurrently (TLC generates initial states on one thread)."""
-    from concurrent.futures import ThreadPoolExecutor
     jobs = []
     for fam in sorted(bnds):
         spec, cfg = ctx.model(ctx.spec("frame", "DivisionsMC.tla"), {"Fams": {fam}, "Bounds": {fam: bnds[fam]}},
                               invariants=["SourcesOK", "RefMeetsContract", "ContractBites", "IllegalMayRaise"])
         jobs.append((fam, spec, cfg))
-    with ThreadPoolExecutor(len(jobs)) as ex:
-        futs = [ex.submit(ctx.tlc_cases, spec, cfg, label="%s:%s" % (label, fam), timeout=3000, workers=2) for fam, spec, cfg in jobs]
-        out = []
-        for f in futs:
-            out += f.result()[0]
-    return out
+    return [c for cases in parallel_tlc_cases(ctx, [("%s:%s" % (label, fam), spec, cfg) for fam, spec, cfg in jobs]) for c in cases]
 
 
 def degenerate(c):
